@@ -54,6 +54,11 @@ pub struct BestCase {
     pub pops: Vec<Vec<Ind>>,
     /// feed single individuals through `BestIndividual::update` instead of the component
     pub direct: bool,
+    /// an evaluation counter that sits in the state with this value during all updates (the populations shown to
+    /// the update were evaluated elsewhere, e.g. inside a scope with its own counter): the update depends on the
+    /// population it is shown, not on bookkeeping around it
+    #[serde(default)]
+    pub evals: Option<u32>,
 }
 
 pub struct BestCheck;
@@ -77,6 +82,10 @@ fn best_oracle(c: &BestCase, cl: &mut u64) -> Result<(), Failure> {
     let problem = RealP::new(1, 0.0, 1.0, RealKind::Tag);
     let mut st = state_with::<RealP>(vec![vec![]], 1);
     let comp = BestIndividualUpdate::new::<RealP>();
+    if let Some(e) = c.evals {
+        st.insert(mahf::state::common::Evaluations(e));
+        st.insert(mahf::state::common::Iterations(e / 2));
+    }
     comp.init(&problem, &mut st).map_err(|e| Failure::new("C07 init", format!("{e}")))?;
     let mut model: Option<(u16, f64)> = None;
     let mut tie_seen = false;
@@ -414,7 +423,7 @@ pub fn run_all(ctx: &mut Ctx, replay: Option<&Path>) {
     }
     ctx.regressions(&b);
     ctx.regressions(&a);
-    ctx.random(&b, (pops_strategy(), any::<bool>()).prop_map(|(pops, direct)| BestCase { pops, direct }), ctx.tier.pick(60_000, 300_000));
+    ctx.random(&b, (pops_strategy(), any::<bool>(), proptest::option::of(0u32..50)).prop_map(|(pops, direct, evals)| BestCase { pops, direct, evals }), ctx.tier.pick(60_000, 300_000));
     ctx.random(&a, (0usize..8, pops_strategy(), proptest::collection::vec((0u16..8, obj_strategy()), 0..6)).prop_map(|(k, pops, target)| ArchiveCase { k, pops, target }), ctx.tier.pick(60_000, 300_000));
     let per = ctx.tier.pick(400, 2000);
     for k in 0..21 {
